@@ -216,7 +216,12 @@ class Scripted(random.Random):
         assert k == 1 and cum_weights is None
         if self.pos >= len(self.script):
             raise NeedMore(weights)
-        self.asks.append([[qv(x) for x in population], weights])
+        def _q(x):
+            try:
+                return qv(x)
+            except (TypeError, ValueError):
+                return ["sym", repr(x)]       # a non-numeric (symbolic) outcome
+        self.asks.append([[_q(x) for x in population], weights])
         i = self.script[self.pos]
         self.pos += 1
         return [population[i]]
